@@ -17,7 +17,7 @@ use crate::{
 #[derive(Clone, Debug, Serialize, Deserialize)]
 pub struct Probe {
 	pub comps: Vec<String>,
-	/// 0 unknown, 1 file, 2 dir
+	/// 0 unknown, 1 file, 2 dir, 3 symlink, 4 other
 	pub ft: u8,
 	pub outside: bool,
 }
@@ -136,6 +136,8 @@ fn build_event(origin: &std::path::Path, ev: &[Probe]) -> Event {
 			file_type: match p.ft {
 				1 => Some(FileType::File),
 				2 => Some(FileType::Dir),
+				3 => Some(FileType::Symlink),
+				4 => Some(FileType::Other),
 				_ => None,
 			},
 		});
@@ -289,7 +291,7 @@ pub fn run(c: &C11Case) -> Outcome {
 fn strategy() -> BoxedStrategy<C11Case> {
 	patgen::alpha()
 		.prop_flat_map(|al| {
-			let probe = (al.rel_path(4), 0u8..3, proptest::bool::weighted(0.12)).prop_map(|(comps, ft, outside)| Probe { comps, ft, outside });
+			let probe = (al.rel_path(4), prop_oneof![4 => 0u8..3, 1 => 3u8..5], proptest::bool::weighted(0.12)).prop_map(|(comps, ft, outside)| Probe { comps, ft, outside });
 			let filters = prop_oneof![
 				2 => Just(vec![]),
 				3 => (al.positive_pattern(), proptest::collection::vec(al.pattern(0.2), 0..3)).prop_map(|(p, mut rest)| {
